@@ -317,6 +317,18 @@ class Gen:
             return None
         return ("select {" + ", ".join(items) + "}", "( select ( " + " ".join(sx) + " ) )", nf)
 
+    def tr_exclude(self, frame, sname):
+        """select !{..}: everything but the listed columns"""
+        rng = self.rng
+        if len(frame) < 2:
+            return None
+        drop = set(rng.sample(range(len(frame)), rng.randint(1, min(2, len(frame) - 1))))
+        if len({frame[i].name for i in drop}) != len(drop):
+            return None
+        nf = [c.copy() for i, c in enumerate(frame) if i not in drop]
+        return ("select !{" + ", ".join(frame[i].ref for i in sorted(drop)) + "}",
+                "( select ( " + " ".join(f"( col {i} )" for i in range(len(frame)) if i not in drop) + " ) )", nf)
+
     def tr_derive(self, frame, sname):
         rng = self.rng
         nf = list(frame)
